@@ -267,7 +267,7 @@ theorem InvVSR_step (P : Prim) {s : St} (h : InvVSR s) (op : Op) : InvVSR (step 
   | finalise del => exact InvVSR_of_eq h rfl rfl rfl rfl rfl rfl rfl rfl
   | iroot del => exact InvVSR_iroot P del h
   | commit del => exact InvVSR_of_eq (InvVSR_iroot P del h) rfl rfl rfl rfl rfl rfl rfl rfl
-  | copy => exact h
+  | copy => exact InvVSR_of_eq h rfl rfl rfl rfl rfl rfl rfl rfl
   | reopen del =>
     simp only [step]
     cases ho : openSt (commit P del s).db (roots P (commit P del s)) with
@@ -639,6 +639,75 @@ theorem InvA_updDelegatorF {P : Prim} {s : St} (h : InvA P s) (a v : Bytes) (d :
   · exact InvA_putAcct h _ _
   · exact h
 
+theorem aget_filter_key {α : Type} (l : List (Bytes × α)) (p : Bytes → Bool) (a : Bytes) :
+    aget (l.filter (fun kv => p kv.1)) a = if p a = true then aget l a else none := by
+  induction l with
+  | nil => simp [aget]
+  | cons x t ih =>
+    obtain ⟨k, v⟩ := x
+    by_cases hk : k = a
+    · subst hk
+      by_cases hp : p k = true
+      · simp [List.filter_cons, hp, aget]
+      · simp only [List.filter_cons, hp, Bool.false_eq_true, if_false, ih]
+    · by_cases hp : p k = true
+      · simp only [List.filter_cons, hp, if_true, aget, hk, if_false, ih]
+      · simp only [List.filter_cons, hp, Bool.false_eq_true, if_false, ih, aget, hk]
+
+theorem mem_keys_of_aget {α : Type} (l : List (Bytes × α)) (k : Bytes) (h : ∃ v, aget l k = some v) : k ∈ l.map (·.1) := by
+  induction l with
+  | nil => obtain ⟨v, hv⟩ := h; simp [aget] at hv
+  | cons x t ih =>
+    obtain ⟨k0, v0⟩ := x
+    by_cases hk : k0 = k
+    · simp [hk]
+    · obtain ⟨v, hv⟩ := h
+      simp only [aget, hk, if_false] at hv
+      simp [ih ⟨v, hv⟩]
+
+theorem copy_get (s : St) (a : Bytes) : aget (copy s).accts a = if dropKey s a = true then none else aget s.accts a := by
+  unfold copy
+  simp only
+  rw [aget_filter_key s.accts (fun k => !dropKey s k) a]
+  cases dropKey s a <;> simp
+
+theorem dropKey_spec {s : St} {a : Bytes} (h : dropKey s a = true) :
+    ∃ o, aget s.accts a = some o ∧ o.deleted = true ∧ a ∉ s.acctJ ∧ a ∉ s.acctP ∧ a ∉ s.acctU := by
+  unfold dropKey at h
+  cases ho : aget s.accts a with
+  | none => rw [ho] at h; simp at h
+  | some o =>
+    rw [ho] at h
+    simp only [Bool.and_eq_true, Bool.not_eq_true', List.contains_eq_mem, decide_eq_false_iff_not] at h
+    exact ⟨o, rfl, h.1.1.1, h.1.1.2, h.1.2, h.2⟩
+
+/-- Copy keeps the invariant: a forgotten object was deleted and clean, so its leaf is empty -/
+theorem InvA_copy {P : Prim} {s : St} (h : InvA P s) : InvA P (copy s) := by
+  have hf : (copy s).db = s.db ∧ (copy s).t = s.t ∧ (copy s).acctJ = s.acctJ ∧ (copy s).acctP = s.acctP ∧ (copy s).acctU = s.acctU :=
+    ⟨rfl, rfl, rfl, rfl, rfl⟩
+  obtain ⟨f1, f2, f3, f4, f5⟩ := hf
+  have hsub : ∀ a o, aget (copy s).accts a = some o → aget s.accts a = some o := by
+    intro a o ho
+    rw [copy_get] at ho
+    by_cases hd : dropKey s a = true
+    · rw [if_pos hd] at ho; simp at ho
+    · rw [if_neg hd] at ho; exact ho
+  refine ⟨?_, ?_, ?_, ?_, ?_, ?_⟩
+  · intro a o ho; rw [f2, f3, f4]; exact h.a1 a o (hsub a o ho)
+  · intro a ho hne
+    rw [f1, f2] at *
+    rw [copy_get] at ho
+    by_cases hd : dropKey s a = true
+    · obtain ⟨o, h1, h2, h3, h4, _⟩ := dropKey_spec hd
+      have := h.a1 a o h1 h3 h4
+      simp [acctLeaf, h2] at this
+      exact absurd this hne
+    · rw [if_neg hd] at ho; exact h.a2 a ho hne
+  · intro a o ho; rw [f1, f3, f5]; exact h.a3 a o (hsub a o ho)
+  · intro a o ho; rw [f2, f3, f4]; exact h.a4 a o (hsub a o ho)
+  · rw [f1]; exact h.a5
+  · intro a; rw [f4, f5]; exact h.a6 a
+
 theorem InvA_step (P : Prim) {s : St} (h : InvA P s) (op : Op) : InvA P (step P s op) := by
   cases op with
   | setBalance a n => exact InvA_putAcct h _ _
@@ -691,7 +760,7 @@ theorem InvA_step (P : Prim) {s : St} (h : InvA P s) (op : Op) : InvA P (step P 
   | finalise del => exact InvA_finalise h del
   | iroot del => exact InvA_iroot h del
   | commit del => exact InvA_commit h del
-  | copy => exact h
+  | copy => exact InvA_copy h
   | reopen del =>
     simp only [step]
     cases ho : openSt (commit P del s).db (roots P (commit P del s)) with
